@@ -114,10 +114,16 @@ func checkMultiTransient(idx int, mc multiCase, mode, buf int, rng *mon.RNG) {
 		var bb bytes.Buffer
 		for i := 0; i < injected+3; i++ {
 			var e error
+			var n int64
+			before := bb.Len()
 			if buf%2 == 0 {
-				_, e = io.Copy(plainWriter{&bb}, mr)
+				n, e = io.Copy(plainWriter{&bb}, mr)
 			} else {
-				_, e = io.Copy(&bb, mr)
+				n, e = io.Copy(&bb, mr)
+			}
+			if n != int64(bb.Len()-before) {
+				rec.Violation(idx, "multi/transient/copy-count-differs", fmt.Sprintf("io.Copy reported %d bytes for an attempt in which the writer received %d (the attempt ended with: %v)", n, bb.Len()-before, e), map[string]any{"component": "MultiReaderCloser", "attempt": i + 1})
+				return
 			}
 			if e == nil {
 				final, stuck = io.EOF, false
